@@ -91,19 +91,19 @@ macro_rules! ni_conf_dec_only {
     };
 }
 
-//@ harness name=aes128_ni_enc prop=C02,C03 tier=quick bits=256 stub=1 variants=aes:ni,aes:ni+zeroize,aes:ni+hazmat est=105 desc="W: Aes128::new(key).encrypt_block(b) (autodetect -> AES-NI arm) == FIPS-197 KeyExpansion + Cipher; all 2^128 keys x 2^128 blocks; round bodies and S-box uninterpreted (shared with the intrinsic models)"
-//@ harness name=aes128_ni_dec prop=C02,C03 tier=quick bits=256 stub=1 variants=aes:ni,aes:ni+zeroize,aes:ni+hazmat est=130 desc="W: Aes128::new(key).decrypt_block(b) (AES-NI arm, aesimc-transformed keys) == FIPS-197 EqInvCipher; all keys and blocks"
+//@ harness name=aes128_ni_enc prop=C02,C03 tier=quick bits=256 stub=1 variants=aes:ni,aes:ni+zeroize,aes:ni+hazmat est=90 desc="W: Aes128::new(key).encrypt_block(b) (autodetect -> AES-NI arm) == FIPS-197 KeyExpansion + Cipher; all 2^128 keys x 2^128 blocks; round bodies and S-box uninterpreted (shared with the intrinsic models)"
+//@ harness name=aes128_ni_dec prop=C02,C03 tier=quick bits=256 stub=1 variants=aes:ni,aes:ni+zeroize,aes:ni+hazmat est=75 desc="W: Aes128::new(key).decrypt_block(b) (AES-NI arm, aesimc-transformed keys) == FIPS-197 EqInvCipher; all keys and blocks"
 ni_conf!(aes128_ni_enc, aes128_ni_dec, crate::Aes128, 16);
-//@ harness name=aes192_ni_enc prop=C02,C03 tier=quick bits=320 stub=1 variants=aes:ni est=120 desc="W: Aes192 encrypt (AES-NI arm; 192-bit expansion with the shuffle() recombination) == FIPS-197; all keys and blocks"
-//@ harness name=aes192_ni_dec prop=C02,C03 tier=quick bits=320 stub=1 variants=aes:ni est=145 desc="W: Aes192 decrypt (AES-NI arm) == FIPS-197 EqInvCipher; all keys and blocks"
+//@ harness name=aes192_ni_enc prop=C02,C03 tier=quick bits=320 stub=1 variants=aes:ni est=60 desc="W: Aes192 encrypt (AES-NI arm; 192-bit expansion with the shuffle() recombination) == FIPS-197; all keys and blocks"
+//@ harness name=aes192_ni_dec prop=C02,C03 tier=quick bits=320 stub=1 variants=aes:ni est=70 desc="W: Aes192 decrypt (AES-NI arm) == FIPS-197 EqInvCipher; all keys and blocks"
 ni_conf!(aes192_ni_enc, aes192_ni_dec, crate::Aes192, 24);
-//@ harness name=aes256_ni_enc prop=C02,C03 tier=quick bits=384 stub=1 variants=aes:ni est=215 desc="W: Aes256 encrypt (AES-NI arm; 256-bit expansion with the extra SubWord step) == FIPS-197; all keys and blocks"
-//@ harness name=aes256_ni_dec prop=C02,C03 tier=quick bits=384 stub=1 variants=aes:ni est=240 desc="W: Aes256 decrypt (AES-NI arm) == FIPS-197 EqInvCipher; all keys and blocks"
+//@ harness name=aes256_ni_enc prop=C02,C03 tier=quick bits=384 stub=1 variants=aes:ni est=130 desc="W: Aes256 encrypt (AES-NI arm; 256-bit expansion with the extra SubWord step) == FIPS-197; all keys and blocks"
+//@ harness name=aes256_ni_dec prop=C02,C03 tier=quick bits=384 stub=1 variants=aes:ni est=145 desc="W: Aes256 decrypt (AES-NI arm) == FIPS-197 EqInvCipher; all keys and blocks"
 ni_conf!(aes256_ni_enc, aes256_ni_dec, crate::Aes256, 32);
 
-//@ harness name=aes128enc_ni prop=C02,C12 tier=quick bits=256 stub=1 variants=aes:ni est=95 quick=C12 desc="W: Aes128Enc::new(key).encrypt_block == FIPS-197 Cipher (encrypt-only type, own constructor), AES-NI arm"
+//@ harness name=aes128enc_ni prop=C02,C12 tier=quick bits=256 stub=1 variants=aes:ni quick=C12 est=65 desc="W: Aes128Enc::new(key).encrypt_block == FIPS-197 Cipher (encrypt-only type, own constructor), AES-NI arm"
 ni_conf_enc_only!(aes128enc_ni, crate::Aes128Enc, 16);
-//@ harness name=aes128dec_ni prop=C02,C12 tier=quick bits=256 stub=1 variants=aes:ni est=130 quick=C12 desc="W: Aes128Dec::new(key).decrypt_block == FIPS-197 EqInvCipher (decrypt-only type, own constructor), AES-NI arm"
+//@ harness name=aes128dec_ni prop=C02,C12 tier=quick bits=256 stub=1 variants=aes:ni quick=C12 est=80 desc="W: Aes128Dec::new(key).decrypt_block == FIPS-197 EqInvCipher (decrypt-only type, own constructor), AES-NI arm"
 ni_conf_dec_only!(aes128dec_ni, crate::Aes128Dec, 16);
 //@ harness name=aes192enc_ni prop=C02,C12 tier=thorough bits=320 stub=1 est=300 variants=aes:ni desc="W: Aes192Enc encrypt == FIPS-197, AES-NI arm"
 ni_conf_enc_only!(aes192enc_ni, crate::Aes192Enc, 24);
@@ -134,7 +134,7 @@ verif_harness! {
         Some(ra::inv_mix_columns(&ra::xor(&x, &k)) == ra::xor(&ra::inv_mix_columns(&x), &ra::inv_mix_columns(&k)))
     }
 }
-//@ harness name=fips_mc_inverse prop=C02,C17 tier=quick bits=268 est=60 desc="oracle lemma, FIPS MixColumns M and InvMixColumns I are mutual inverses: (a) M(x^y) == M(x)^M(y) and I(x^y) == I(x)^I(y) for all 2^128 x 2^128 pairs, (b) I(M(e)) == e and M(I(e)) == e for every state e with a single non-zero byte (position and value symbolic); every state is the XOR of its 16 single-byte components, so (a)+(b) give I o M == M o I == id (the direct composition query is a wide-parity equivalence that does not finish)"
+//@ harness name=fips_mc_inverse prop=C02,C17 tier=quick bits=268 est=70 desc="oracle lemma, FIPS MixColumns M and InvMixColumns I are mutual inverses: (a) M(x^y) == M(x)^M(y) and I(x^y) == I(x)^I(y) for all 2^128 x 2^128 pairs, (b) I(M(e)) == e and M(I(e)) == e for every state e with a single non-zero byte (position and value symbolic); every state is the XOR of its 16 single-byte components, so (a)+(b) give I o M == M o I == id (the direct composition query is a wide-parity equivalence that does not finish)"
 verif_harness! {
     name: fips_mc_inverse,
     bytes: 34,
@@ -153,7 +153,7 @@ verif_harness! {
         Some(ra::mix_columns(&ra::inv_mix_columns(&e)) == e)
     }
 }
-//@ harness name=fips_shiftrows_commute prop=C02 tier=quick bits=128 est=20 desc="oracle lemma: InvShiftRows and ShiftRows are mutually inverse, and InvShiftRows commutes with the bytewise InvSubBytes (it only moves bytes); all 2^128 states"
+//@ harness name=fips_shiftrows_commute prop=C02 tier=quick bits=128 est=15 desc="oracle lemma: InvShiftRows and ShiftRows are mutually inverse, and InvShiftRows commutes with the bytewise InvSubBytes (it only moves bytes); all 2^128 states"
 verif_harness! {
     name: fips_shiftrows_commute,
     bytes: 16,
